@@ -1399,10 +1399,13 @@ var _ rpc.Resources
 // (the request that will replace that answer is a re-access request of this trigger: it is
 // governed by the trigger's throttle)
 //@   ensures[C19] old(s.flags & flagAccessCalled) != 0 && t != nil ==> s.reaccessThrottle == t
+//@   ensures[C19] t == nil ==> s.reaccessThrottle == old(s.reaccessThrottle)
+// (with direct subscriptions the events are held and a validating callback waits for an answer)
+//@   ensures[C06] old(s.direct) != 0 ==> s.queueFlag == old(s.queueFlag) | queueReasonReaccess && s.flags & flagAccessCalled != 0
 //@   ensures[C06] old(s.direct) == 0 ==> s.queueFlag == old(s.queueFlag) && s.accessCallbacks == old(s.accessCallbacks)
 //@   ensures[C06] predSubsStable()
 //@   ensures[C06] forall x *Subscription :: x != s ==> x.access == old(x.access) && x.flags == old(x.flags)
-//@   assert[C06] s.loadAccess#1: s.access == nil && s.queueFlag & queueReasonReaccess != 0 && s.direct != 0
+//@   assert[C06,C19] s.loadAccess#1: s.access == nil && s.queueFlag & queueReasonReaccess != 0 && s.direct != 0 && arg1 == t
 //@   safety[C15]
 //@ closure (*Subscription).handleReaccess#1
 //@   requires s != nil && s.c != nil && predConnOK(s.c.(*wsConn))
@@ -1600,12 +1603,19 @@ var _ rpc.Resources
 //@   requires t != nil ==> rescache.predThrottleInv(t)
 //@   assumes predCountsOK()
 //@   ensures[C06] old(s.state) == stateDisposed ==> s.access == old(s.access) && s.flags == old(s.flags) && s.queueFlag == old(s.queueFlag)
-//@   ensures[C06] old(s.state) != stateDisposed && old(s.queueFlag) != 0 ==> s.queueFlag == old(s.queueFlag) &&
-//@       s.flags == old(s.flags) | flagReaccess | ite(old(s.flags & flagAccessCalled) != 0, flagAccessStale, 0)
 //@   ensures[C04,C05,C06] old(s.state) != stateDisposed ==> s.access == nil
-// (a check deferred from a system reset stays under that reset's throttle)
-//@   ensures[C19] old(s.state) != stateDisposed && old(s.queueFlag) != 0 && t != nil ==> s.reaccessThrottle == t
-//@   ensures[C19] old(s.state) != stateDisposed && old(s.queueFlag) != 0 && t == nil ==> s.reaccessThrottle == old(s.reaccessThrottle)
+// (an access request already in flight was made before this trigger: its answer is stale)
+//@   ensures[C05,C06] old(s.state) != stateDisposed && old(s.flags & flagAccessCalled) != 0 ==> s.flags & flagAccessStale != 0
+// (no hold reason is released by a trigger; with direct subscriptions the events are held from
+// this moment on, and a validation of those subscriptions is pending: either the deferred
+// re-access, or a validating callback waiting for an access answer)
+//@   ensures[C06] old(s.state) != stateDisposed ==> s.queueFlag & old(s.queueFlag) == old(s.queueFlag)
+//@   ensures[C06] old(s.state) != stateDisposed && s.direct > 0 ==> s.queueFlag != 0 &&
+//@       (s.flags & flagReaccess != 0 || (s.queueFlag & queueReasonReaccess != 0 && s.flags & flagAccessCalled != 0))
+// (a check deferred from a system reset, and the request replacing a stale answer, stay under
+// that reset's throttle; a trigger without throttle does not take a stored one away)
+//@   ensures[C19] old(s.state) != stateDisposed && t != nil && (s.flags & flagReaccess != 0 || old(s.flags & flagAccessCalled) != 0) ==> s.reaccessThrottle == t
+//@   ensures[C19] old(s.state) != stateDisposed && t == nil ==> s.reaccessThrottle == old(s.reaccessThrottle)
 //@   ensures[C06] predSubsStable()
 //@   ensures[C06] forall x *Subscription :: x != s ==> x.access == old(x.access) && x.flags == old(x.flags)
 //@   safety[C15]
